@@ -1013,6 +1013,16 @@ func (runInfo *runInfoStruct) runChanStmt(stmt *ast.ChanStmt) {
 		runInfo.expr = stmt.OkExpr
 		runInfo.invokeLetExpr()
 		// TODO: ok to ignore error?
+		if runInfo.err != nil {
+			// not an interruption: the run was cancelled while the target was evaluated
+			select {
+			case <-runInfo.ctx.Done():
+				runInfo.rv = nilValue
+				runInfo.err = ErrInterrupt
+				return
+			default:
+			}
+		}
 	}
 
 	if ok {
